@@ -26,6 +26,8 @@ CHECKS = {
             "sizes (which files have layers), digest ranks, option subsets and edit requests are solver variables / forked choices"),
     "C07": ("5/C07", "symbolic execution (symx) of filter_empty/edit_torrent/commands.edit over opaque strings (observational abstraction) with forked field choices and base key presence; z3",
             "field choices, key presence, emptiness and word counts of the opaque strings are forked; holds for strings of any length"),
+    "C08": ("5/C08", "symbolic execution (symx) non-interference harness: the same symbolic payload created twice in one path under two independent copies of clock, listing order, location, path spelling, cwd, trackers, outfile, progress; z3",
+            "sizes, both clocks and both listing permutations are solver variables; path spellings are a finite grammar"),
     "C10": ("5/C10", "symbolic execution (symx): pairwise equality of creators' metafiles and of all hashers' outputs on the same symbolic payload; z3",
             "file sizes and listing order are solver variables"),
     "C04": ("5/C04-C05-C16", "symbolic execution (symx) of Checker/FeedChecker/HashChecker/FileHasher on symbolic sizes and damage positions; z3 decides 'result < 100'",
